@@ -203,16 +203,21 @@ Definition mark_removed (check_ready : bool) (g : graph) (nd : node) : result gr
 Definition remove_all (l : list node) (s : list node) : result (list node) :=
   foldM (fun s nd => of_opt ERemove (remove_one Nat.eqb nd s)) l s.
 
-Definition remove_nodes (g : graph) (l : list node) (check_ready : bool) : result graph :=
-  g1 <- foldM (mark_removed check_ready) l g ;;
-  (* hasattr(self, "sorted_nodes") evaluates the property: it sorts an unsorted graph *)
-  gs <- sorted_nodes g1 ;;
-  let g2 := fst gs in let s := snd gs in
+(* the tail of remove_nodes once the graph is known to be sorted *)
+Definition finish_remove (g2 : graph) (l s : list node) : result graph :=
   if list_eqb Nat.eqb l (firstn (List.length l) s)
   then Ok (set_sorted g2 (Some (skipn (List.length l) s)))
   else
     s' <- remove_all l s ;;
     sorting (set_sorted g2 (Some s')) s'.
+
+Definition remove_nodes (g : graph) (l : list node) (check_ready : bool) : result graph :=
+  g1 <- foldM (mark_removed check_ready) l g ;;
+  (* `if self._sorted_nodes is not None:` (repair F37b) *)
+  match g_sorted g1 with
+  | None => Ok g1
+  | Some s => finish_remove g1 l s
+  end.
 
 Definition disconnect_succ (nd : node) (st : dict * list edge) (nd_in : node) : result (dict * list edge) :=
   pd <- dremove (fst st) nd_in nd ;;
@@ -254,16 +259,24 @@ Fixpoint succ_all (depth : nat) (sd : dict) (n : node) : result (list node) :=
       foldM (fun acc x => sx <- succ_all d sd x ;; Ok (acc ++ x :: sx)) sl []
   end.
 
-Definition remove_successor (g : graph) (nd : node) : result graph :=
-  if memb nd (g_nodes g) then
-    g1 <- remove_nodes g [nd] false ;;
-    remove_previous_connections g1 [nd]
-  else Ok g.
+(* followers: `if nd in self.nodes and nd not in followers` over _successors_all *)
+Fixpoint collect_followers (ns : list node) (all acc : list node) : list node :=
+  match all with
+  | [] => acc
+  | nd :: r => collect_followers ns r (if memb nd ns && negb (memb nd acc) then acc ++ [nd] else acc)
+  end.
 
+(* repair F37: all followers are marked for removal first, then disconnected *)
 Definition remove_successors_nodes (g : graph) (n : node) : result graph :=
   all <- succ_all (S (List.length (g_succs g))) (g_succs g) n ;;
   g1 <- remove_nodes_connections g [n] ;;
-  foldM remove_successor all g1.
+  let followers := collect_followers (g_nodes g1) all [] in
+  g2 <- foldM (fun g nd => remove_nodes g [nd] false) followers g1 ;;
+  foldM (fun g nd => remove_previous_connections g [nd]) followers g2.
+
+(* copy(): `if self._sorted_nodes:` — an empty sorted list is copied as "not sorted" *)
+Definition copy_graph (g : graph) : graph :=
+  match g_sorted g with Some [] => set_sorted g None | _ => g end.
 
 (* ---- histories *)
 Inductive op :=
@@ -287,7 +300,7 @@ Definition step (g : graph) (o : op) : result graph :=
   | RemoveSuccessorsNodes n => remove_successors_nodes g n
   | Sort => sorting g []
   | GetSorted => gs <- sorted_nodes g ;; Ok (fst gs)
-  | Copy => Ok g
+  | Copy => Ok (copy_graph g)
   end.
 
 Definition run (g : graph) (ops : list op) : result graph := foldM step ops g.
